@@ -90,6 +90,12 @@ def _pos_rule(r, feature, classes, kind=None):
         return "pos mark %s <anchor %d %d> mark @TOP;" % (m, r.randint(0, 100), r.randint(600, 800))
     if feature == "curs":
         return "pos cursive %s <anchor 0 %d> <anchor 500 %d>;" % (r.choice(LC), r.randint(0, 50), r.randint(0, 50))
+    if q < 0.12 and len(classes) >= 2:
+        # class kerning that is zero in design units and lives in a device table only (ppem-specific), or
+        # has both: the cell is not empty
+        a, b = r.sample(classes, 2)
+        dev = "<device %s>" % ", ".join("%d %d" % (pp, r.choice([-2, -1, 1, 2])) for pp in sorted(r.sample(range(9, 16), r.randint(1, 3))))
+        return "pos @%s @%s <0 0 %d 0 <device NULL> <device NULL> %s <device NULL>>;" % (a, b, r.choice([0, 0, 0, -15]), dev)
     if q < 0.25:
         return "pos %s %s %d;" % (r.choice(UC), r.choice(UC + LC), -r.randint(1, 120))
     if q < 0.45:
